@@ -227,8 +227,41 @@ func StripSGR(s string) string { return sgrRe.ReplaceAllString(s, "") }
 var clockZones = []*time.Location{time.UTC, time.FixedZone("UTC-5", -5*3600), time.FixedZone("UTC+2", 2*3600), time.FixedZone("UTC+5:45", 5*3600+45*60),
 	time.FixedZone("UTC-11", -11*3600), time.FixedZone("UTC+13", 13*3600), time.UTC}
 
-// ClockAt builds a clock reading whose local date and time of day are the given ones; the zone varies deterministically.
-func ClockAt(d ref.Date, minuteOfDay, second int) time.Time {
-	loc := clockZones[((d.Days()%7+7)%7+minuteOfDay)%len(clockZones)]
-	return time.Date(d.Y, time.Month(d.M), d.D, minuteOfDay/60, minuteOfDay%60, second, 0, loc)
+// dstZones are real zones with daylight-saving transitions (loaded lazily; absent tzdata simply disables them).
+var dstZones []*time.Location
+var dstLoaded bool
+
+func loadDST() {
+	if dstLoaded {
+		return
+	}
+	dstLoaded = true
+	for _, n := range []string{"Europe/Berlin", "America/New_York", "Australia/Lord_Howe", "Pacific/Auckland"} {
+		if l, err := time.LoadLocation(n); err == nil {
+			dstZones = append(dstZones, l)
+		}
+	}
 }
+
+// ClockAt builds a clock reading whose local date and time of day are the given ones; the zone varies deterministically
+// (fixed offsets, and real DST zones - on 23- and 25-hour days "yesterday" is not "24 hours ago").
+func ClockAt(d ref.Date, minuteOfDay, second int) time.Time {
+	loadDST()
+	k := ((d.Days()%7+7)%7 + minuteOfDay) % (len(clockZones) + len(dstZones))
+	var loc *time.Location
+	if k < len(clockZones) {
+		loc = clockZones[k]
+	} else {
+		loc = dstZones[k-len(clockZones)]
+	}
+	t := time.Date(d.Y, time.Month(d.M), d.D, minuteOfDay/60, minuteOfDay%60, second, 0, loc)
+	if t.Year() != d.Y || int(t.Month()) != d.M || t.Day() != d.D || t.Hour() != minuteOfDay/60 || t.Minute() != minuteOfDay%60 {
+		// a local time that does not exist in that zone (spring-forward gap): use UTC
+		t = time.Date(d.Y, time.Month(d.M), d.D, minuteOfDay/60, minuteOfDay%60, second, 0, time.UTC)
+	}
+	return t
+}
+
+// DSTDates are dates around daylight-saving transitions of the zones above (2024).
+var DSTDates = []ref.Date{{Y: 2024, M: 3, D: 30}, {Y: 2024, M: 3, D: 31}, {Y: 2024, M: 4, D: 1}, {Y: 2024, M: 10, D: 26}, {Y: 2024, M: 10, D: 27}, {Y: 2024, M: 10, D: 28},
+	{Y: 2024, M: 3, D: 10}, {Y: 2024, M: 3, D: 11}, {Y: 2024, M: 11, D: 3}, {Y: 2024, M: 11, D: 4}, {Y: 2024, M: 4, D: 7}, {Y: 2024, M: 9, D: 29}}
